@@ -18,7 +18,7 @@ BC = ["and", "affineGeq", "affineLeq", "alldifferent", "countEq", "elementIv", "
 
 
 # proof files whose authors have reported completion (in-progress files are not imported)
-FINISHED = ["Affine", "AffineLeq", "Dummy", "Element", "MinMax", "Counting", "CountEq", "Lex", "Scc", "NoSubCycle", "AlldifferentReg", "GccReg", "ExactOfSupport", "SupportCertProofs", "AlldiffCorrectFinal", "GccPortSound", "GccExact", "GccLbcFinal"]
+FINISHED = ["Affine", "AffineLeq", "Dummy", "Element", "MinMax", "Counting", "CountEq", "Lex", "Scc", "NoSubCycle", "AlldifferentReg", "GccReg", "ExactOfSupport", "SupportCertProofs", "AlldiffCorrectFinal", "GccPortSound", "GccExact", "GccLbcFinal", "GccCIsPort"]
 
 
 def available():
@@ -172,6 +172,16 @@ theorem C14_gcc_port_idempotent (ps : List Int) (B : Box) (hc : Contract .gcc ps
     (hu : ∀ j, j < (ps.length - 1) / 2 → 1 ≤ getI ps (1 + (ps.length - 1) / 2 + j))
     (st : Status) (B' : Box) (h : gcc ps B = .ok (st, B')) (hst : st ≠ .inc) : gcc ps B' = .ok (.cons, B') :=
   gcc_port_idempotent ps B hc hB hu st B' h hst
+'''
+    if "gccC_is_port" in names:
+        c14_extra += '''
+/-- the registered model of gcc (the port behind an exponential result checker) IS the ported Python algorithm whenever there are
+    at most 12 values and every upper capacity is at least 1: the checker accepts every answer of the port (the hard direction of
+    Hoffman's condition, `gcc_feasible_of_not_infeasible`) and the fallback is never used; so on these inputs `C05/C06_gcc` and the
+    engine theorems, which are about `runAlg .gcc`, are about the line-by-line port of nucs/propagators/gcc_propagator.py -/
+theorem C14_gcc_is_port (ps : List Int) (B : Box) (hc : Contract .gcc ps B) (hB : B.Nonempty)
+    (hu : ∀ j, j < (ps.length - 1) / 2 → 1 ≤ getI ps (1 + (ps.length - 1) / 2 + j)) (hm : gccM ps ≤ 12) :
+    ∃ st B', gcc ps B = .ok (st, B') ∧ gccC ps B = .ok (st, if st = .inc then B else B') := gccC_is_port ps B hc hB hu hm
 '''
     out["C14"] = block("exact", ("C14", "Exact"), BC,
         "  C14 — bound-consistent propagators compute exactly the bounds hull of the solutions.\n\n"
